@@ -18,7 +18,18 @@
      Return(t)      resolve() returns to the application
 
    WakeCheck = FALSE is the deliberately wrong variant (`if` instead of `while` around resp.wait()): a notified thread
-   takes cache[name] without looking - KeyError when the answer was for another name.                              *)
+   takes cache[name] without looking - KeyError when the answer was for another name.
+
+   The transaction ids are a conserved resource (ServiceDiscovery.tids, 256 ids; scaled to 2-3 in model checking so
+   that the pool runs empty and ids are drawn again): a lookup of an uncached name TAKES an id from the pool
+   (`tid = random.choice(tids); tids.remove(tid)`, llc.py:192-193 - any id of the pool, IndexError when it is empty),
+   the answer GIVES IT BACK (`tids.append(tid)`, llc.py:217).  `pool` is the set of free ids; the ids that are out are
+   those of the requests queued (`reqs`) and on the wire (`out`).  PoolConserved: pool and outstanding ids partition
+   Tids, no id is out twice.  NeverStarves: with every earlier lookup answered the pool is full, so a new lookup
+   always gets an id.  A lookup is abandoned only by the end of the link, where the whole component dies (resolve()
+   returns None from then on and never draws again).  `sent` (tid -> name) is never pruned by the code: an entry
+   stays until its id is drawn again and the new request is collected.  GiveBack = FALSE is the deliberately wrong
+   variant (the answered lookup keeps its id): the (N+1)-th uncached lookup of a link finds the pool empty.         *)
 EXTENDS Integers, Sequences, SequencesExt, FiniteSets, TLC
 
 CONSTANTS Threads,      \* application threads
@@ -28,30 +39,41 @@ CONSTANTS Threads,      \* application threads
           SendMiu,      \* link MIU announced by the peer: budget of one SNL PDU's information field
           PopHead,      \* (wrong variant) dequeue walks a snapshot of the queue but sends whatever is at its head (code: FALSE)
           MaxCalls,     \* bound on resolve() calls per thread (model checking only)
-          WakeCheck     \* TRUE: `while name not in snl: wait()`   FALSE: `if ...: wait()`
+          WakeCheck,    \* TRUE: `while name not in snl: wait()`   FALSE: `if ...: wait()`
+          Tids,         \* the transaction ids (code: 0..255; scaled to 2-3 ids in model checking)
+          GiveBack      \* (wrong variant: FALSE) the answer to a lookup returns its transaction id to the pool (code: TRUE)
 
 VARIABLES th,           \* [Threads -> [pc, n, ret, calls]]   pc: "idle" | "wait" | "woken" | "ret"
-          reqs,         \* SDREQ queued, not yet collected: Seq of [id, n]
-          sent,         \* ServiceDiscovery.sent: the requests recorded as sent (tid -> name), set of [id, n]
-          out,          \* SDREQ that really went on the wire and are not yet answered: set of [id, n]
+          reqs,         \* SDREQ queued, not yet collected: Seq of [id, n, tid]   (id: ghost, unique per call)
+          sent,         \* ServiceDiscovery.sent: [Tids -> name recorded as sent under that id | NoName], never pruned
+          out,          \* SDREQ that really went on the wire and are not yet answered: set of [id, n, tid]
+          pool,         \* ServiceDiscovery.tids: the free transaction ids
           snl,          \* the names of the last SNL PDU collected (for its length)
           cache,        \* [Names -> address | -1]  (ServiceDiscovery.snl, -1 = unknown)
           up            \* link is up
-vars == <<th, reqs, sent, out, snl, cache, up>>
+vars == <<th, reqs, sent, out, pool, snl, cache, up>>
 
 Unknown == -1
 RNone == -2             \* resolve() returned None
 RKeyError == -3         \* resolve() raised KeyError
+RStarved == -5          \* resolve() raised IndexError: random.choice() of an empty pool     (-4: any other exception, binding only)
+NoTid == -1
+NoName == ""
 Idle == [pc |-> "idle", n |-> "", ret |-> 0, calls |-> 0]
 
 \* ------------------------------------------------------------------ the critical sections as functions
 \* resolve(), first part                                                              llc.py:175-188
-CallR(s, t, n) ==
+\* x: the transaction id random.choice() draws - any id of the pool (Draws), NoTid where none is drawn
+Draws(s, n) == IF ~s.up \/ s.cache[n] # Unknown \/ s.pool = {} THEN {NoTid} ELSE s.pool
+CallR(s, t, n, x) ==
     IF ~s.up THEN [s EXCEPT !.th[t] = [@ EXCEPT !.pc = "ret", !.n = n, !.ret = RNone, !.calls = @ + 1]]
     ELSE IF s.cache[n] # Unknown
          THEN [s EXCEPT !.th[t] = [@ EXCEPT !.pc = "ret", !.n = n, !.ret = s.cache[n], !.calls = @ + 1]]
+    ELSE IF s.pool = {}                                                                    \* IndexError from random.choice([])
+         THEN [s EXCEPT !.th[t] = [@ EXCEPT !.pc = "ret", !.n = n, !.ret = RStarved, !.calls = @ + 1]]
          ELSE [s EXCEPT !.th[t] = [@ EXCEPT !.pc = "wait", !.n = n, !.calls = @ + 1],
-                        !.reqs = Append(@, [id |-> <<t, s.th[t].calls + 1>>, n |-> n])]    \* id: ghost for the transaction id
+                        !.pool = @ \ {x},                                                  \* the id is taken
+                        !.reqs = Append(@, [id |-> <<t, s.th[t].calls + 1>>, n |-> n, tid |-> x])]
 \* ServiceDiscovery.dequeue, requests: `for i in range(len(sdreq))`: the head goes into the PDU if 3 + len(name) fits
 \* the remaining budget (and is recorded in `sent`), else it is rotated to the end - the queue keeps its order
 \* (llc.py:238-246).  wrong variant: the walk is over a snapshot, the entry that fits is recorded, the HEAD is sent
@@ -62,20 +84,22 @@ CollectR(s) ==
                         IF Need(e.n) > acc.m THEN (IF PopHead THEN acc ELSE [acc EXCEPT !.keep = Append(@, e)])
                         ELSE IF PopHead
                              THEN [m |-> acc.m - Need(e.n), keep |-> <<>>, q |-> Tail(acc.q), wire |-> Append(acc.wire, Head(acc.q)),
-                                   rec |-> acc.rec \cup {e}]
-                             ELSE [acc EXCEPT !.m = @ - Need(e.n), !.wire = Append(@, e), !.rec = @ \cup {e}],
-                      [m |-> SendMiu, keep |-> <<>>, q |-> s.reqs, wire |-> <<>>, rec |-> {}], [i \in DOMAIN s.reqs |-> i])
+                                   rec |-> [acc.rec EXCEPT ![e.tid] = e.n]]
+                             ELSE [acc EXCEPT !.m = @ - Need(e.n), !.wire = Append(@, e), !.rec[e.tid] = e.n],      \* sent[tid] = name
+                      [m |-> SendMiu, keep |-> <<>>, q |-> s.reqs, wire |-> <<>>, rec |-> s.sent], [i \in DOMAIN s.reqs |-> i])
     IN [s EXCEPT !.reqs = IF PopHead THEN r.q ELSE r.keep,
-                 !.sent = @ \cup r.rec,
+                 !.sent = r.rec,
                  !.out = @ \cup {r.wire[i] : i \in DOMAIN r.wire},
                  !.snl = [i \in DOMAIN r.wire |-> r.wire[i].n]]
 \* ServiceDiscovery.enqueue with the answers for the requests A                        llc.py:199-210
-\* the peer answers the request it received (its id, the address bound under ITS name); the answer is filed under
-\* the name recorded for that id - an id that was never recorded is ignored
+\* the peer answers the request it received (its transaction id, the address bound under ITS name); the answer is filed
+\* under the name recorded for that id and the id goes back to the pool - an id that was never recorded is ignored
 DeliverR(s, A) ==
+    LET hits == {a \in A : s.sent[a.tid] # NoName} IN
     [s EXCEPT !.out = @ \ A,
-              !.cache = [n \in Names |-> IF \E a \in A : \E r \in s.sent : r.id = a.id /\ r.n = n
-                                         THEN PeerSnl[(CHOOSE a \in A : \E r \in s.sent : r.id = a.id /\ r.n = n).n] ELSE @[n]],
+              !.cache = [n \in Names |-> IF \E a \in hits : s.sent[a.tid] = n
+                                         THEN PeerSnl[(CHOOSE a \in hits : s.sent[a.tid] = n).n] ELSE @[n]],
+              !.pool = IF GiveBack THEN @ \cup {a.tid : a \in hits} ELSE @,                                         \* tids.append(tid)
               !.th = [t \in Threads |-> IF @[t].pc = "wait" THEN [@[t] EXCEPT !.pc = "woken"] ELSE @[t]]]
 \* after resp.wait() returned                                                         llc.py:187-189
 WakeR(s, t, check) ==
@@ -88,14 +112,15 @@ LinkEndR(s) == [s EXCEPT !.up = FALSE,
                          !.th = [t \in Threads |-> IF @[t].pc = "wait" THEN [@[t] EXCEPT !.pc = "woken"] ELSE @[t]]]
 ReturnR(s, t) == [s EXCEPT !.th[t].pc = "idle"]
 
-State == [th |-> th, reqs |-> reqs, sent |-> sent, out |-> out, snl |-> snl, cache |-> cache, up |-> up]
-Set(s) == /\ th' = s.th /\ reqs' = s.reqs /\ sent' = s.sent /\ out' = s.out /\ snl' = s.snl /\ cache' = s.cache /\ up' = s.up
+State == [th |-> th, reqs |-> reqs, sent |-> sent, out |-> out, pool |-> pool, snl |-> snl, cache |-> cache, up |-> up]
+Set(s) == /\ th' = s.th /\ reqs' = s.reqs /\ sent' = s.sent /\ out' = s.out /\ pool' = s.pool /\ snl' = s.snl
+          /\ cache' = s.cache /\ up' = s.up
 
 \* ------------------------------------------------------------------ actions
-Init == /\ th = [t \in Threads |-> Idle] /\ reqs = <<>> /\ sent = {} /\ out = {} /\ snl = <<>>
+Init == /\ th = [t \in Threads |-> Idle] /\ reqs = <<>> /\ sent = [x \in Tids |-> NoName] /\ out = {} /\ pool = Tids /\ snl = <<>>
         /\ cache = [n \in Names |-> Unknown] /\ up = TRUE
 
-Call(t, n) == th[t].pc = "idle" /\ th[t].calls < MaxCalls /\ Set(CallR(State, t, n))
+Call(t, n) == th[t].pc = "idle" /\ th[t].calls < MaxCalls /\ \E x \in Draws(State, n) : Set(CallR(State, t, n, x))
 Collect == reqs # <<>> /\ up /\ CollectR(State).snl # <<>> /\ Set(CollectR(State))
 Deliver(A) == A # {} /\ A \subseteq out /\ up /\ Set(DeliverR(State, A))
 Wake(t) == th[t].pc = "woken" /\ Set(WakeR(State, t, WakeCheck))
@@ -122,12 +147,28 @@ Pending(s) == {s.reqs[i].n : i \in DOMAIN s.reqs} \cup {a.n : a \in s.out}
 RequestOutP(s) == \A t \in Threads : s.th[t].pc = "wait" => s.th[t].n \in Pending(s)
 RequestOut == RequestOutP(State)
 \* every SDREQ on the wire is recorded under its transaction id, and an SNL PDU never exceeds the peer's MIU
-RecordedP(s) == s.out \subseteq s.sent
+RecordedP(s) == \A a \in s.out : s.sent[a.tid] = a.n
 Recorded == RecordedP(State)
 SnlFitsP(s) == FoldLeft(LAMBDA a, i : a + Need(s.snl[i]), 0, [i \in DOMAIN s.snl |-> i]) <= SendMiu
 SnlFits == SnlFitsP(State)
 
+\* the transaction ids are conserved: every id is either free or out with exactly one request that is queued or on
+\* its way - an answered lookup has given its id back, no id is handed out twice
+Busy(s) == {s.reqs[i].tid : i \in DOMAIN s.reqs} \cup {a.tid : a \in s.out}
+PoolConservedP(s) == /\ s.pool \cap Busy(s) = {}
+                     /\ s.pool \cup Busy(s) = Tids
+                     /\ Cardinality(Busy(s)) = Len(s.reqs) + Cardinality(s.out)
+PoolConserved == PoolConservedP(State)
+\* with all earlier lookups answered the pool is full: a new lookup always gets an id, however many went before
+NeverStarvesP(s) == (s.reqs = <<>> /\ s.out = {}) => s.pool = Tids
+NeverStarves == NeverStarvesP(State)
+
 \* ------------------------------------------------------------------ reachability witnesses (must be violated)
+W_PoolEmpty   == ~(pool = {} /\ up)                                                         \* every id is out
+W_TidReused   == ~(\E i \in DOMAIN reqs : sent[reqs[i].tid] \notin {NoName, reqs[i].n})     \* an id drawn again, for another name
+W_Refilled    == ~(pool = Tids /\ Cardinality({n \in Names : cache[n] # Unknown}) > Cardinality(Tids))  \* more lookups answered than ids
+\* (temporal, must be violated) the pool runs empty and is full again later
+NeverRefilled == [](pool = {} => [](pool # Tids))
 W_ForeignWake == ~(\E t \in Threads : th[t].pc = "woken" /\ up /\ cache[th[t].n] = Unknown)     \* woken by somebody else's answer
 W_TwoWaiting  == ~(Cardinality({t \in Threads : th[t].pc = "wait"}) >= 2 /\ Cardinality(out) >= 2)
 W_Skipped     == ~(Len(snl) >= 2 /\ Len(reqs) >= 1)        \* one request did not fit, a later one did
